@@ -81,6 +81,7 @@ def check_runs(runs, w, obs):
     tags = set()
     trailing = False
     quirk = None
+    per_run = []
     for terminal, events, tg in runs:
         q = [t for t in tg if t.startswith("quirk:")]
         m = match(obs, terminal, events, w)
@@ -93,17 +94,18 @@ def check_runs(runs, w, obs):
             continue
         tags |= tg
         kinds.add(m[0])
+        per_run.append((m[0], frozenset(tg)))
         if terminal[0] == "done" and terminal[5] and terminal[2] < len(w) and not terminal[4]:
             trailing = True
         if why is None:
             why = m[1]
     if quirk:
-        return {"known"}, f"the parser behaves as described by finding {quirk}, which the reading does not allow ({why})", {"quirk:" + quirk}
+        return {"known"}, f"the parser behaves as described by finding {quirk}, which the reading does not allow ({why})", {"quirk:" + quirk}, []
     if trailing:
         # the program is complete after k bytes and byte k cannot continue it.  Whether that byte is then simply left unread (DONE)
         # or is a mismatch of a parser that expected the input to stop there is not settled by the statement: not decided here.
         raise refint.Unsupported("byte after a program that is already complete")
-    return kinds, why, tags
+    return kinds, why, tags, per_run
 
 
 def inputs_for(prog, budget=1500, extra_random=300, seed=0):
